@@ -55,6 +55,7 @@ use crate::{
 #[cfg(feature = "parallel")]
 use crate::{
     model::Model,
+    nuts::NutsError,
     storage::{ChainStorage, StorageConfig, TraceStorage},
 };
 
@@ -1144,6 +1145,11 @@ impl<T: TraceStorage> ChainProcess<T> {
                         .init_position(&mut rng, &mut initval)
                         .context("Failed to generate a new initial position")?;
                     if let Err(err) = sampler.set_position(&initval) {
+                        // Only a bad initial point is worth another attempt; an
+                        // unrecoverable logp error has to stop the chain.
+                        if let Some(NutsError::LogpFailure(_)) = err.downcast_ref::<NutsError>() {
+                            return Err(err.context("Unrecoverable error during initialization"));
+                        }
                         error = Some(err);
                         continue;
                     }
